@@ -658,8 +658,11 @@ def history_case(seed, length=3):
         nprng = np.random.default_rng(seed)
         particles = {c: {"mass": nprng.uniform(1, 2, 5 + c), "identity": (nprng.permutation(100)[: 5 + c] + 100 * c).astype("int32")}
                      for c in range(1, ncpu + 1)}
+        sink_cols = ["id", "msink", "x", "y", "z", "age"]
+        sinks = {c: [float(v) for v in nprng.permutation(6) + 1.5] for c in sink_cols}  # unsorted in every column
         rw.write_output(tmp, 1, octs, ndim=ndim, ncpu=ncpu, levelmin=levelmin, levelmax=levelmax, hydro_vars=hydro_vars,
-                        ghosts=rw.random_ghosts(octs, ncpu, rng), particles=particles)
+                        ghosts=rw.random_ghosts(octs, ncpu, rng), particles=particles, sinks=sinks,
+                        sink_units={"id": "1", "msink": "m", "x": "l", "y": "l", "z": "l", "age": "t"})
         shapes = {
             "full": {},
             "part_only": {"select": ["part"]},
@@ -675,6 +678,8 @@ def history_case(seed, length=3):
             "sorted": {"sortby": {"part": "identity"}},
             "nothing": {"select": {"mesh": {"density": lambda d: d < osyris.Array(-1.0, unit="g/cm**3")}}},
             "groups_list": {"select": ["mesh", "part"]},
+            "sorted_sinks": {"sortby": {"sink": "msink"}},
+            "sink_only": {"select": ["sink"]},
         }
         names = list(shapes)
         hist = [rng.choice(names) for _ in range(length)]
@@ -724,11 +729,11 @@ def replay_history(case, model, rec):
 
 
 def sweep_c15(tier, seed):
-    n = 121 + (10 if tier == "quick" else 400)  # all 11 x 11 ordered pairs, then random histories of length 3
+    n = 169 + (10 if tier == "quick" else 400)  # all 13 x 13 ordered pairs, then random histories of length 3
     viol = []
     for k in range(n):
         try:
-            r = history_case(k if k < 121 else seed * 5003 + k, length=2 if k < 121 else 3)
+            r = history_case(k if k < 169 else seed * 5003 + k, length=2 if k < 169 else 3)
         except Exception as e:
             import traceback
 
